@@ -175,6 +175,14 @@ def worker_main(args):
     test = settings(max_examples=args.cases, database=None, deadline=None, report_multiple_bugs=False,
                     suppress_health_check=list(HealthCheck), phases=phases, derandomize=False,
                     print_blob=False)(hypothesis.seed(args.seed)(given(prop.strategy(args.tier))(body)))
+    if hasattr(prop, "enumerate_cases"):
+        # finite catalogue: worker i takes every W-th case of the complete enumeration (no sampling)
+        allcases = prop.enumerate_cases(args.tier, args.seed // 1000)
+        mine = allcases[args.worker::args.nworkers]
+
+        def test():
+            for c in mine:
+                body(c)
     result = {"violation": None}
     try:
         test()
@@ -267,6 +275,7 @@ def main(argv=None):
     ap.add_argument("--noshrink", action="store_true")
     ap.add_argument("--no-evidence", action="store_true")
     ap.add_argument("--worker", type=int)
+    ap.add_argument("--nworkers", type=int, default=1)
     ap.add_argument("--seed", type=int)
     ap.add_argument("--out")
     args = ap.parse_args(argv)
@@ -328,7 +337,7 @@ def main(argv=None):
     for i in range(workers):
         out = os.path.join(outdir, "w%d.json" % i)
         cmd = [sys.executable, "-m", "vlib.driver", args.prop, "--tier", args.tier, "--worker", str(i),
-               "--seed", str(base_seed * 1000 + i), "--cases", str(cases), "--out", out]
+               "--seed", str(base_seed * 1000 + i), "--cases", str(cases), "--out", out, "--nworkers", str(workers)]
         if args.noshrink:
             cmd.append("--noshrink")
         procs.append((subprocess.Popen(cmd, cwd=HERE, stdout=subprocess.DEVNULL, stderr=subprocess.PIPE), out))
